@@ -108,6 +108,7 @@ PRELUDE: Dict[str, Any] = {
     "len": len,
     "abs": abs,
     "Rec": Rec,
+    "_vf_Rec": Rec,
     "ResultTTree": _result("ResultTTree"),
     "ResultParquet": _result("ResultParquet"),
     "ResultPandasDF": _result("ResultPandasDF"),
@@ -120,7 +121,7 @@ PRELUDE: Dict[str, Any] = {
 class _Prep(ast.NodeTransformer):
     def visit_Dict(self, node: ast.Dict):
         self.generic_visit(node)
-        return ast.Call(func=ast.Name(id="Rec", ctx=ast.Load()), args=[node], keywords=[])
+        return ast.Call(func=ast.Name(id="_vf_Rec", ctx=ast.Load()), args=[node], keywords=[])
 
 
 def _fix_ctx(tree: ast.AST):
@@ -137,12 +138,76 @@ def _fix_ctx(tree: ast.AST):
             n.kind = None
 
 
-def prepare(tree: ast.AST) -> ast.Expression:
+class _Err:
+    """Absorbing error value of the *total* semantics used by C18: a failing literal projection yields ERR instead of
+    raising, every operation on ERR yields ERR (truth value False, empty when iterated), so that a rewrite which turns
+    an erroring projection into a different value (or vice versa) becomes visible in the result."""
+
+    def _s(self, *a, **k):
+        return self
+
+    __add__ = __radd__ = __sub__ = __rsub__ = __mul__ = __rmul__ = __truediv__ = __rtruediv__ = _s
+    __mod__ = __rmod__ = __neg__ = __pos__ = __abs__ = __call__ = __getitem__ = _s
+    __lt__ = __gt__ = __le__ = __ge__ = __eq__ = __ne__ = _s
+
+    def __getattr__(self, n):
+        if n.startswith("__"):
+            raise AttributeError(n)
+        return self
+
+    def __hash__(self):
+        return 0
+
+    def __bool__(self):
+        return False
+
+    def __iter__(self):
+        return iter(())
+
+    def __len__(self):
+        return 0
+
+    def __repr__(self):
+        return "ERR"
+
+
+ERR = _Err()
+
+
+def _sub(v, s):
+    try:
+        return v[s]
+    except (IndexError, KeyError, TypeError):
+        return ERR
+
+
+class RecSafe(Rec):
+    def __getattr__(self, k):
+        try:
+            return self[k]
+        except KeyError:
+            return ERR
+
+
+class _Total(ast.NodeTransformer):
+    def visit_Subscript(self, node: ast.Subscript):
+        self.generic_visit(node)
+        sl = node.slice
+        if isinstance(sl, ast.Slice):
+            none = ast.Constant(value=None)
+            sl = ast.Call(func=ast.Name(id="_vf_slice", ctx=ast.Load()), args=[sl.lower or none, sl.upper or none, sl.step or none], keywords=[])
+        return ast.Call(func=ast.Name(id="_vf_sub", ctx=ast.Load()), args=[node.value, sl], keywords=[])
+
+
+def prepare(tree: ast.AST, total: bool = False) -> ast.Expression:
     t = copy.deepcopy(tree)
     if isinstance(t, ast.Module):
         t = t.body[0].value  # type: ignore
     if isinstance(t, ast.Expression):
         t = t.body
+    if total:
+        _fix_ctx(t)
+        t = _Total().visit(t)
     t = _Prep().visit(t)
     _fix_ctx(t)
     e = ast.Expression(body=t)
@@ -150,11 +215,13 @@ def prepare(tree: ast.AST) -> ast.Expression:
     return e
 
 
-def evaluate(tree: ast.AST, env: Dict[str, Any]) -> Any:
+def evaluate(tree: ast.AST, env: Dict[str, Any], total: bool = False) -> Any:
     """Evaluate a (possibly sloppy, machine-built) expression AST in PRELUDE + env."""
-    e = prepare(tree)
+    e = prepare(tree, total)
     code = compile(e, "<vf-eval>", "eval")
     g = dict(PRELUDE)
+    if total:
+        g.update(_vf_sub=_sub, _vf_slice=slice, _vf_Rec=RecSafe)
     g.update(env)
     g["__builtins__"] = {}
     return eval(code, g)
@@ -162,6 +229,8 @@ def evaluate(tree: ast.AST, env: Dict[str, Any]) -> Any:
 
 def materialise(v: Any) -> Any:
     """Normalise a result for exact, type-strict comparison."""
+    if v is ERR:
+        return ("ERR",)
     if isinstance(v, bool):
         return ("b", v)
     if isinstance(v, int):
@@ -197,7 +266,7 @@ def materialise(v: Any) -> Any:
 
 def mat_nonempty(m) -> bool:
     """Does a materialised value contain at least one scalar leaf?"""
-    if m[0] in ("b", "i", "f", "s", "y", "o"):
+    if m[0] in ("b", "i", "f", "s", "y", "o", "ERR"):
         return True
     if m[0] == "d":
         return any(mat_nonempty(x) for _, x in m[1])
